@@ -1345,6 +1345,8 @@ class Date(Atomic):
         elif isinstance(arg, Tag):
             self.decode(arg)
         elif isinstance(arg, tuple):
+            if len(arg) != 4:
+                raise ValueError("four elements required")
             self.value = arg
         elif isinstance(arg, str):
             # lower case everything
@@ -1550,6 +1552,8 @@ class Time(Atomic):
         elif isinstance(arg, Tag):
             self.decode(arg)
         elif isinstance(arg, tuple):
+            if len(arg) != 4:
+                raise ValueError("four elements required")
             self.value = arg
         elif isinstance(arg, str):
             tup_match = Time._time_regex.match(arg)
